@@ -73,6 +73,9 @@ var commitLies = []string{
 	"commit-forged", "commit-short", "commit-otherid", "commit-psh", "commit-wrongset", "commit-wrongheight",
 	"commit-padded-sig", "commit-padded-sig", "commit-padded-nil", "commit-padded-nil", "commit-padded-addr", "commit-padded-addr",
 	"commit-variant",
+	// every signature genuine, one slot misplaced (see forger.relabelled)
+	"commit-nil-addr-member", "commit-nil-addr-member", "commit-nil-addr-unknown", "commit-nil-addr-unknown",
+	"commit-nil-wrong-index", "commit-forblock-swapped",
 }
 
 var neutralKinds = []string{"right", "other-height+right", "noblock+right"}
